@@ -9,6 +9,8 @@ import (
 	"context"
 	"flag"
 	"fmt"
+	"strings"
+	"sync/atomic"
 	"os"
 	"sync"
 	"time"
@@ -177,11 +179,89 @@ func main() {
 		defer wg.Done()
 		shut = shutdownDuringSave()
 	}()
+	var ret map[string]interface{}
+	wg.Add(1)
+	go func() {
+		defer wg.Done()
+		ret = retentionVsRunning()
+	}()
 	wg.Wait()
 	for _, r := range results {
 		hutil.JSONLine(w, r)
 	}
 	hutil.JSONLine(w, shut)
+	hutil.JSONLine(w, ret)
+}
+
+// retentionVsRunning (C12, C01, in real time): a job runs longer than its pipeline's retention_period and a save happens meanwhile.
+// The save must not remove it: it stays reported, keeps its slot (a second request waits), and ends normally.
+func retentionVsRunning() map[string]interface{} {
+	res := map[string]interface{}{"kind": "retention_running", "scenario": "retention_period_shorter_than_running_job", "ok": false}
+	dir, err := os.MkdirTemp("", "persistrun")
+	if err != nil {
+		panic(err)
+	}
+	defer os.RemoveAll(dir)
+	inner, err := store.NewJSONDataStore(dir)
+	if err != nil {
+		panic(err)
+	}
+	defs := &definition.PipelinesDef{Pipelines: map[string]definition.PipelineDef{
+		"p": {Concurrency: 1, RetentionPeriod: 20 * time.Millisecond, Tasks: map[string]definition.TaskDef{"a": {Script: []string{"x"}}}, SourcePath: "f"}}}
+	gate := make(chan struct{})
+	var executing, maxExecuting int32
+	ctx, cancel := context.WithCancel(context.Background())
+	cancel() // no persist loop: the save is explicit
+	r, err := prunner.NewPipelineRunner(ctx, defs, func(j *prunner.PipelineJob) taskctl.Runner {
+		return &test.MockRunner{OnRun: func(t *task.Task) error {
+			n := atomic.AddInt32(&executing, 1)
+			for {
+				m := atomic.LoadInt32(&maxExecuting)
+				if n <= m || atomic.CompareAndSwapInt32(&maxExecuting, m, n) {
+					break
+				}
+			}
+			<-gate
+			atomic.AddInt32(&executing, -1)
+			return nil
+		}}
+	}, inner, test.NewMockOutputStore())
+	if err != nil {
+		panic(err)
+	}
+	j1, err := r.ScheduleAsync("p", prunner.ScheduleOpts{})
+	if err != nil {
+		res["what"] = err.Error()
+		return res
+	}
+	time.Sleep(80 * time.Millisecond) // older than the retention period, still running
+	r.SaveToStore()
+	var what []string
+	if err := r.ReadJob(j1.ID, func(j *prunner.PipelineJob) {}); err != nil {
+		what = append(what, "the save removed a running job that is older than retention_period: "+err.Error())
+	}
+	j2, err := r.ScheduleAsync("p", prunner.ScheduleOpts{})
+	if err != nil {
+		what = append(what, "second request: "+err.Error())
+	} else {
+		time.Sleep(30 * time.Millisecond)
+		started := false
+		_ = r.ReadJob(j2.ID, func(j *prunner.PipelineJob) { started = j.Start != nil })
+		if started {
+			what = append(what, "a second job of the pipeline was started while the first is still executing (concurrency 1)")
+		}
+	}
+	close(gate)
+	if m := atomic.LoadInt32(&maxExecuting); m > 1 {
+		what = append(what, fmt.Sprintf("%d jobs of the pipeline executed at once, concurrency 1", m))
+	}
+	res["max_executing"] = atomic.LoadInt32(&maxExecuting)
+	if len(what) == 0 {
+		res["ok"] = true
+	} else {
+		res["what"] = strings.Join(what, "; ")
+	}
+	return res
 }
 
 // shutdownDuringSave: Shutdown is called while a save of the persist loop (with an older snapshot) is still inside the
